@@ -9,6 +9,7 @@ EXPLANATION = (
 def check(ctx, prog):
     model.rule_init_coherence(ctx, prog)
     model.rule_trigger_join(ctx, prog)
+    model.rule_optional_zero(ctx, prog)
     optimize.rule_offset_primitives(ctx, prog)
     engine.rule_writeback(ctx, prog, want=("R-OFFSET-ROUNDTRIP", "R-WRITEBACK-MONO"))
     # one constraint seeing one shared domain through several views is where the shared-domain encoding differs from the
